@@ -872,6 +872,10 @@ class TokenizerAnalysis:
                 ob(['C01'], 'only (frames, start, end) tokens are yielded', False, e[1]['where'])
             if e[0] == 'TAINTREAD':
                 ob(['C20'], 'no decision or delivered value depends on state left by an earlier run (%s: %s)' % (e[1]['var'], e[1]['what']), False, e[1]['where'])
+        for e in evs:
+            if e[0] == 'ORACLE':
+                b = e[1]['bound_to']
+                ob(['C03', 'C04', 'C02'], 'frame validity is judged by the validator given to the constructor (the callable itself, or its is_valid method)', b in ('', 'is_valid'), e[1]['where'])
         # every token built in this iteration is yielded in this iteration
         delivered_ids = {e[1]['id'] for e in delivers}
         for e in mk:
@@ -968,6 +972,14 @@ class TokenizerAnalysis:
                     s._ob(obs, alarms, ['C02'], 'constructor accepts only mode in {0,2,4,6}', q.cons, mv in (0, 2, 4, 6), None, 'ctor', q.conds, where0, q.imprecise)
                     continue
                 s._ob(obs, alarms, ['C02'], 'constructor: mode %d is %s' % (mode, 'accepted' if legal else 'rejected'), q.cons, legal, None, 'ctor', q.conds, where0, q.imprecise)
+                if legal and mode == 0:
+                    for f, v in q.flds.items():
+                        if v[0] == 'validator':
+                            b = v[1] if len(v) > 1 else ''
+                            want_callable = any(k.startswith('callable') and val for k, val in q.sb.items())
+                            okb = b in ('', 'is_valid')
+                            s._ob(obs, alarms, ['C02', 'C03', 'C04'], 'the constructor binds the validity oracle to the given validator (itself if callable, else its is_valid method)', q.cons, okb, None, 'ctor',
+                                  q.conds, where0, q.imprecise)
                 if legal:
                     for c in spec:
                         s._ob(obs, alarms, ['C02'], 'constructor accepts only tuples inside the spec region (%s)' % show(c), q.cons, c, None, 'ctor mode=%d' % mode, q.conds, where0, q.imprecise)
